@@ -556,6 +556,57 @@ fn check_windowed_stream(wins: &[TimeWindow], case: &Case, p: &str) -> Result<()
     Ok(())
 }
 
+/// A tumbling duration with a sub-millisecond rest (`D ms + r us`, D >= 1, 0 < r < 1000), for one case in three (a
+/// pure function of the case, so saved cases keep decoding). Timestamps are whole milliseconds and the statement does
+/// not say how such a duration is laid on them, so only what every reading shares is judged: the windows are
+/// pairwise disjoint intervals, every held event lies inside the span of the window that holds it, no event is held
+/// twice, and (where nothing expires) every offered event is held by some window unless its window's cap pushed it
+/// out. Returns the rest, or 0.
+fn sub_ms_rest(case: &Case) -> u64 {
+    let h = case.evs.iter().fold(case.d.wrapping_mul(7).wrapping_add(case.cap as u64), |a, e| a.wrapping_mul(31).wrapping_add(e.t));
+    if h % 3 != 0 || case.d == 0 {
+        return 0;
+    }
+    1 + (h / 3) % 999
+}
+
+fn check_sub_ms_windows(wins: &[TimeWindow], case: &Case, rest: u64, p: &str, all_must_be_held: bool) -> Result<(), Verdict> {
+    let mut spans: Vec<(u64, u64)> = Vec::new();
+    let mut held: HashSet<usize> = HashSet::new();
+    for win in wins {
+        let (st, en) = (win.start_time, win.end_time);
+        if en <= st {
+            return Err(Verdict::fail(format!("{}-sub-ms:empty-span", p), format!("duration {} ms + {} us: window [{}, {}) is empty", case.d, rest, st, en)));
+        }
+        let got = match ids(win.events().iter(), case) {
+            Ok(g) => g,
+            Err(m) => return Err(Verdict::fail(format!("{}-sub-ms:foreign-event", p), m)),
+        };
+        for &i in &got {
+            let t = case.evs[i].t;
+            if t < st || t >= en {
+                return Err(Verdict::fail(format!("{}-sub-ms:event-outside-its-window", p), format!("duration {} ms + {} us: e{} (t={}) is held by window [{}, {})", case.d, rest, i, t, st, en)));
+            }
+            if !held.insert(i) {
+                return Err(Verdict::fail(format!("{}-sub-ms:event-held-twice", p), format!("duration {} ms + {} us: e{} (t={}) is held by two windows", case.d, rest, i, t)));
+            }
+        }
+        spans.push((st, en));
+    }
+    spans.sort();
+    for w in spans.windows(2) {
+        if w[1].0 < w[0].1 {
+            return Err(Verdict::fail(format!("{}-sub-ms:windows-overlap", p), format!("duration {} ms + {} us: windows [{}, {}) and [{}, {}) overlap -- a timestamp has two windows", case.d, rest, w[0].0, w[0].1, w[1].0, w[1].1)));
+        }
+    }
+    if all_must_be_held && case.cap >= case.evs.len() {
+        if let Some(e) = case.evs.iter().find(|e| !held.contains(&e.i)) {
+            return Err(Verdict::fail(format!("{}-sub-ms:event-lost", p), format!("duration {} ms + {} us: e{} (t={}) is in no window although no cap was reached", case.d, rest, e.i, e.t)));
+        }
+    }
+    Ok(())
+}
+
 pub fn run_ws(s: &mut Src, ctx: &mut Ctx) -> Verdict {
     let mut case = gen(s, ctx.exh, Kind::Tumbling);
     if probe_only() {
@@ -577,9 +628,18 @@ pub fn run_ws(s: &mut Src, ctx: &mut Ctx) -> Verdict {
         return Verdict::fail("ws-counts", format!("counts() = {:?} but the windows hold {:?} events", counts, exp));
     }
     // same thing through the fluent API
-    let stream2 = DataStream::from_events(events).window(cfg);
+    let stream2 = DataStream::from_events(events.clone()).window(cfg);
     if let Err(v) = check_windowed_stream(stream2.windows(), &case, "ws") {
         return v;
+    }
+    let rest = sub_ms_rest(&case);
+    if rest > 0 {
+        let cfg = WindowConfig::tumbling(Duration::from_millis(case.d) + Duration::from_micros(rest)).with_max_events(case.cap);
+        let stream3 = WindowedStream::new(events, cfg);
+        if let Err(v) = check_sub_ms_windows(stream3.windows(), &case, rest, "ws", true) {
+            return v;
+        }
+        ctx.label("sub-millisecond-rest-on-duration");
     }
     classify_tumbling(&case, ctx, "ws");
     Verdict::Pass
@@ -642,6 +702,20 @@ pub fn run_wm(s: &mut Src, ctx: &mut Ctx) -> Verdict {
             }
         }
         prev = cur;
+    }
+    let rest = sub_ms_rest(&case);
+    if rest > 0 {
+        let mut wm = WindowManager::new(WindowType::Tumbling, Duration::from_millis(w) + Duration::from_micros(rest), case.cap, 1000);
+        for e in &case.evs {
+            wm.process_event(mk_event(e));
+            if let Err(v) = check_sub_ms_windows(wm.active_windows(), &case, rest, "wm", false) {
+                return v;
+            }
+            if !wm.active_windows().iter().any(|x| x.start_time <= e.t && e.t < x.end_time && x.events().iter().any(|h| h.id == format!("e{}", e.i))) {
+                return Verdict::fail("wm-sub-ms:event-not-placed", format!("duration {} ms + {} us: right after process_event(e{}, t={}) no active window whose span contains {} holds it", w, rest, e.i, e.t, e.t));
+            }
+        }
+        ctx.label("sub-millisecond-rest-on-duration");
     }
     if recreated {
         ctx.label("late-event-recreates-expired-window");
